@@ -58,9 +58,12 @@ def new_approximator(prog, cls, backend):
     init = cls.lookup("__init__")
     if init is None:
         return Obj(cls, {})
-    ip = [p.name for p in init.call_params]
-    if len(ip) != 1:
-        raise AnchorMissing(f"{init.qual}: parameters {ip} (expected the backend only)")
+    ps = list(init.call_params)
+    # the backend parameter: named / annotated as such, else the first one; every further option keeps its default
+    bp = next((p for p in ps if "backend" in p.name.lower() or (p.annotation is not None and "CCABackend" in norm(p.annotation))), ps[0] if ps else None)
+    if bp is None or any(p.default is None and p is not bp and p.kind in ("pos", "kwonly") for p in ps):
+        raise AnchorMissing(f"{init.qual}: parameters {[p.name for p in ps]} (expected the backend and options with defaults)")
+    ip = [bp.name]
     host = ResultInterp(prog, init, {ip[0]: backend}, self_obj=Obj(cls, {}))
     try:
         o = host.construct(cls, [], {ip[0]: backend}, init.node)
